@@ -1928,6 +1928,9 @@ func c02Generated(full bool) []string {
 			if a[0] == 'i' && (b[0] == 'l' || b[0] == 'i') {
 				continue
 			}
+			if a == "c1" && b == "c1" {
+				continue // adjacent code spans: their backtick strings would join into one of length 2 (one span, 6.1)
+			}
 			if a[len(a)-1] == 'w' && (b == "b t1" || b == "n t1") {
 				continue // a space in front of a line break is stripped: not the same structure
 			}
